@@ -28,6 +28,12 @@ fn compute_subscribe_packet_length_properties5(packet: &SubscribePacket) -> Gnei
         total_remaining_length += subscription.topic_filter.len();
     }
 
+    if total_remaining_length > MAXIMUM_VARIABLE_LENGTH_INTEGER {
+        let message = "compute_subscribe_packet_length_properties5 - remaining length exceeds the protocol maximum (2 ^ 28 - 1)";
+        error!("{}", message);
+        return Err(GneissError::new_encoding_failure(message));
+    }
+
     Ok((total_remaining_length as u32, subscribe_property_section_length as u32))
 }
 
